@@ -104,6 +104,18 @@ RN = dict(name='RenameAnalysis.Consume stage 1 (hash scan)', probe='krn', fam=['
           rule='change sets of 1-9 adds/deletes/modifications over 2-7 contents; even cases all blobs < 32 bytes '
                '(output = stage-1 scan, compared with Rn.scan), odd cases sizes around 32 B and the similarity window, '
                'thresholds 0-100, 1/8 with a 1 ns timeout (oracle only); non-trivial = at least one exact rename')
+E01 = dict(name='end-to-end: real Pipeline.Run + BurndownAnalysis vs line-lifetime ground truth', probe='e01', fam=None,
+           quick=4000, thorough=400000,
+           nontrivial=lambda ops, impl: '],[' in ops[0] and ',' in ops[0].split('"Parents":')[1].split(']]')[0].replace('],[', ' ').split(' ')[-1],
+           rule='conflict-free DAG histories (3-14 commits, two-parent and octopus merges, optional second root, optional '
+                'redundant two-parent edges, 3 authors, 2 files) built as in-memory go-git repositories; sampling<=granularity in 1..4; '
+                'a third each: no hibernation / in memory / on disk (distance 1-3, thresholds 0,3,10,1000); checked: global, per-file, '
+                'per-developer matrices, ownership, interaction matrix == ground truth; result with hibernation == without, no temp '
+                'file left; binary round trip identity; non-trivial = history ends in a merge-containing DAG')
+E01L = dict(name='end-to-end: linear histories with arbitrary edits (row sums, non-negativity)', probe='e01l', fam=None,
+            quick=4000, thorough=400000, nontrivial=nt_any,
+            rule='3-14 commits, 1-3 edits each over 3 paths (nested dir): repeated lines, deletions, renames, binary flips, '
+                 'missing final newline; checked: no negative cell, last row sum == text lines at HEAD, per file likewise')
 PLAN4 = dict(name='prepareRunPlan validated (all graphs of 4 commits x all hash orders)', probe='kplan', fam=['pl'],
              quick=0, thorough=0, exhaustive=True, extra=['exh', '4'], shards={'quick': 2, 'thorough': 2},
              nontrivial=lambda ops, impl: ' F:' in ops[0] or ' M:' in ops[0],
@@ -124,7 +136,7 @@ PLANR = dict(name='prepareRunPlan validated (random graphs up to 60 commits)', p
                   'distance 0..4; non-trivial = plan has a fork and a merge')
 
 PROPS = {
-    'C01': dict(corr=[GS, RT, BD, DAG]),
+    'C01': dict(corr=[GS, RT, BD, DAG, E01, E01L]),
     'C02': dict(level='translation_validation', corr=[PLAN4, PLAN5, PLAN6, PLANR]),
     'C03': dict(corr=[FU]),
     'C04': dict(corr=[GC, PLAN5, PLANR]),
@@ -132,7 +144,7 @@ PROPS = {
     'C06': dict(corr=[RB, RBC, HB]),
     'C07': dict(corr=[MG, DAG]),
     'C08': dict(corr=[DAG, RBC]),
-    'C09': dict(corr=[RUN, HB]),
+    'C09': dict(corr=[RUN, HB, E01]),
     'C10': dict(level='translation_validation', corr=[RES]),
     'C11': dict(corr=[LN]),
     'C12': dict(corr=[LN, RUN]),
@@ -140,7 +152,7 @@ PROPS = {
     'C14': dict(corr=[RUN]),
     'C15': dict(corr=[TS]),
     'C16': dict(corr=[IDG, IDM]),
-    'C17': dict(corr=[CD]),
+    'C17': dict(corr=[CD, E01]),
     'C18': dict(corr=[DEV, IDM]),
     'C19': dict(corr=[TK]),
     'C20': dict(corr=[TD, BC]),
